@@ -54,9 +54,18 @@ struct Run
 // The comparison contract is the sign of the result only; the style is fixed per history (0: -1/0/+1, 1: difference,
 // 2: difference * 1000, 3: INT_MIN/0/INT_MAX, 4..7: asymmetric mixes).
 static int g_cmp_style = 0;
+static int cmp_shape2(int x, int y);
+// left argument: an element; right argument: a probe whose single byte holds the complement of the key
+static int cmp_elem_probe(void const *a, void const *b)
+{
+    return cmp_shape2(*(uint8_t const *)a, uint8_t(~*(uint8_t const *)b));
+}
 static int cmp_first(void const *a, void const *b)
 {
-    int x = *(uint8_t const *)a, y = *(uint8_t const *)b;
+    return cmp_shape2(*(uint8_t const *)a, *(uint8_t const *)b);
+}
+static int cmp_shape2(int x, int y)
+{
     int s = (x > y) - (x < y);
     switch (g_cmp_style & 7)
     {
@@ -204,7 +213,11 @@ static void op_push(Run &r, Q &q, Tape &t, int kind, int sort_after)
         case 0: p = a_que_push_back(q.q); break;
         case 1: p = a_que_push_fore(q.q); break;
         case 2: p = a_que_insert(q.q, idx); break;
-        default: p = a_que_push_sort(q.q, e.data(), cmp_first); break;
+        default: {
+            // key "on the right": half of the time a probe object of another layout (complemented byte)
+            uint8_t probe = uint8_t(~key);
+            p = (r.opno & 1) ? a_que_push_sort(q.q, &probe, cmp_elem_probe) : a_que_push_sort(q.q, e.data(), cmp_first);
+            break; }
         }
         if (!p)
         {
